@@ -3,6 +3,7 @@ package main
 import (
 	"context"
 	"fmt"
+	"io"
 	"strings"
 
 	bin "github.com/gagliardetto/binary"
@@ -84,18 +85,29 @@ func openCarStorage(ctx context.Context, where string) (*carv2.Reader, ReaderAtC
 
 func readSectionFromReaderAt(reader ReaderAtCloser, offset uint64, length uint64) ([]byte, error) {
 	data := make([]byte, length)
-	_, err := reader.ReadAt(data, int64(offset))
-	if err != nil {
+	if err := readFullAt(reader, data, int64(offset)); err != nil {
 		return nil, err
 	}
 	return data, nil
 }
 
+// readFullAt fills buf from reader at off. An io.ReaderAt may return io.EOF together with a
+// complete read that ends at the end of the source: that is a success. A short read is an error.
+func readFullAt(reader io.ReaderAt, buf []byte, off int64) error {
+	n, err := reader.ReadAt(buf, off)
+	if n == len(buf) {
+		return nil
+	}
+	if err == nil {
+		err = io.ErrUnexpectedEOF
+	}
+	return err
+}
+
 func readNodeFromReaderAtWithOffsetAndSize(reader ReaderAtCloser, wantedCid *cid.Cid, offset uint64, length uint64) ([]byte, error) {
 	// read MaxVarintLen64 bytes
 	section := make([]byte, length)
-	_, err := reader.ReadAt(section, int64(offset))
-	if err != nil {
+	if err := readFullAt(reader, section, int64(offset)); err != nil {
 		return nil, err
 	}
 	return parseNodeFromSection(section, wantedCid)
